@@ -93,10 +93,10 @@ FAMILIES = {
 
 # which kinds of H2 failure count for which property
 KINDS = {
-    "C01": {"ledger", "O"}, "C02": {"O"}, "C03": {"O", "K"}, "C04": {"corrupt", "A", "HB", "ledger", "O"}, "C05": {"ledger", "O"},
+    "C01": {"ledger", "O"}, "C02": {"O"}, "C03": {"O", "K", "HBL"}, "C04": {"corrupt", "A", "HB", "ledger", "O"}, "C05": {"ledger", "O"},
     "C06": {"stuck", "A"}, "C07": {"A", "HB", "M"}, "C08": {"O"}, "C09": {"O", "A", "stuck", "ledger"}, "C10": {"O"},
     "C11": {"O", "stuck"}, "C12": {"O", "K"}, "C13": {"O", "A", "ledger", "stuck", "K"}, "C14": {"O", "K", "stuck"},
-    "C15": {"O", "A", "ledger", "stuck", "HB"}, "C16": {"O", "A", "stuck"}, "C17": {"M", "HB"}, "C19": {"O", "K"},
+    "C15": {"O", "A", "ledger", "stuck", "HB"}, "C16": {"O", "A", "stuck"}, "C17": {"M", "HBL"}, "C19": {"O", "K"},
 }
 
 
@@ -236,7 +236,7 @@ def judge(pid, cap, spec, lines, threads):
         fails.append(("stuck", "the execution cannot go on: " + verdict[2:] + " (threads blocked for ever while every other thread has finished or is blocked)"))
     r = hb_check(events)
     if r:
-        fails.append(("HB", r))
+        fails.append(("HBL" if "chan.wait_list" in r else "HB", r))
     if verdict == "V ok":
         res = {}
         for l in lines:
@@ -365,7 +365,7 @@ def explore(prop, tier, seed):
     for i, (fam, cap, threads) in enumerate(tpls):
         cls = classes[(i + seed) % 4] if prop != "C04" else classes[i % 4]
         base = ["seq", "seq spur=1", "rnd %d 150" % (seed * 100 + i), "rnd %d 400 tick=2" % (seed * 100 + i + 50),
-                "seq hold=1:800", "seq hold=0:800 spur=1"]
+                "seq hold=1:800", "seq hold=0:800 spur=1", "seq hold=1:800 spur=2", "seq hold=0:800"]
         if not quick:
             base += ["rnd %d %d" % (seed * 1000 + i * 10 + k, 100 + 60 * k) for k in range(12)] + ["rnd %d 300 spur=2" % (seed + i)]
         jobs.append(("%s-%d" % (fam, i), cap, cls, threads, base))
